@@ -188,8 +188,13 @@ func (s *Service) handleStatus(msg service.DIDCommMsg) error {
 	// check if there are any channels registered for the message ID
 	statusCh := s.getStatusCh(statusMsg.ID)
 	if statusCh != nil {
-		// invoke the channel for the incoming message
-		statusCh <- *statusMsg
+		// invoke the channel for the incoming message; the requester may have left already (a second response for
+		// one request, or a response racing with the requester's time-out): do not wait for it for good
+		select {
+		case statusCh <- *statusMsg:
+		case <-time.After(updateTimeout):
+			return fmt.Errorf("status message %s: nobody is waiting for it", statusMsg.ID)
+		}
 	}
 
 	return nil
@@ -336,8 +341,12 @@ func (s *Service) handleBatch(msg service.DIDCommMsg) error {
 	batchCh := s.getBatchCh(batchMsg.ID)
 
 	if batchCh != nil {
-		// invoke the channel for the incoming message
-		batchCh <- *batchMsg
+		// invoke the channel for the incoming message; the requester may have left already (see handleStatus)
+		select {
+		case batchCh <- *batchMsg:
+		case <-time.After(updateTimeout):
+			return fmt.Errorf("batch message %s: nobody is waiting for it", batchMsg.ID)
+		}
 	}
 
 	return nil
